@@ -219,6 +219,87 @@ func drawStream(d gen.D) (*fitmodel.Stream, int) {
 	return s, int(ft)
 }
 
+// presenceStreams builds the streams of the presence sub-check for message g
+// in a file of type ft.
+func presenceStreams(ft fit.FileType, g uint16) []*fitmodel.Stream {
+	mi := prof.Table().Msgs[g]
+	isDst := map[string]bool{}
+	for _, n := range fitmodel.DestinationFields[g] {
+		isDst[n] = true
+	}
+	var srcs, dsts []*fitmodel.FieldInfo
+	for _, n := range prof.FieldNums(g) {
+		fi := mi.Fields[n]
+		if fi.Kind != fitmodel.KindNative || fi.SIndex < 0 || fi.SIndex >= mi.NFields {
+			continue
+		}
+		switch {
+		case isDst[fi.Name] && !(g == fitmodel.MsgRecord && fi.Name == "Speed") && !(g == fitmodel.MsgEvent && fi.Name == "Data"):
+			dsts = append(dsts, fi)
+		case gen.Interesting(g, fi) || isDst[fi.Name]:
+			srcs = append(srcs, fi)
+		}
+	}
+	fieldDef := func(fi *fitmodel.FieldInfo) fitmodel.FieldDef {
+		bt := fitmodel.MustBase(fi.Base)
+		size := bt.Size
+		if fi.Array {
+			size = bt.Size * fi.Length
+		}
+		return fitmodel.FieldDef{Num: fi.Num, Size: byte(size), Base: fi.Base}
+	}
+	var out []*fitmodel.Stream
+	kinds := []byte{0}
+	if g == fitmodel.MsgEvent {
+		kinds = []byte{fitmodel.EventSportPoint, fitmodel.EventFrontGearChange, fitmodel.EventRearGearChange, fitmodel.EventRadarThreat, 0}
+	}
+	for _, kind := range kinds {
+		for variant := 0; variant < 2+len(dsts); variant++ {
+			for _, be := range []bool{false, true} {
+				def := fitmodel.Rec{IsDef: true, Local: 1, Global: g, BigEndian: be, Fields: []fitmodel.FieldDef{{Num: 253, Size: 4, Base: 0x86}}}
+				var fields []*fitmodel.FieldInfo
+				fields = append(fields, srcs...)
+				for i, dfi := range dsts {
+					if variant == 0 || variant == 2+i {
+						continue // absent
+					}
+					fields = append(fields, dfi)
+				}
+				if len(def.Fields)+len(fields) > 80 {
+					continue
+				}
+				for _, fi := range fields {
+					def.Fields = append(def.Fields, fieldDef(fi))
+				}
+				s := &fitmodel.Stream{HeaderSize: 12, Proto: 0x20, Recs: []fitmodel.Rec{
+					{IsDef: true, Global: 0, Fields: []fitmodel.FieldDef{{Num: 0, Size: 1, Base: 0}}}, {Raw: []byte{byte(ft)}}, def,
+				}}
+				for r := 0; r < 2; r++ {
+					raw := fitmodel.PutWireUint(uint64(0x3B9ACA00+r), 4, be)
+					for fi2, fd := range def.Fields[1:] {
+						bt := fitmodel.MustBase(fd.Base)
+						for k := 0; k < int(fd.Size)/bt.Size; k++ {
+							// valid mid-range values that differ per field,
+							// element and record
+							v := uint64(0x11 + 7*fi2 + 3*k + 5*r)
+							if bt.Size > 1 {
+								v |= uint64(0x02+fi2+r) << 8
+							}
+							if g == fitmodel.MsgEvent && fd.Num == 0 {
+								v = uint64(kind)
+							}
+							raw = append(raw, fitmodel.PutWireUint(v, bt.Size, be)...)
+						}
+					}
+					s.Recs = append(s.Recs, fitmodel.Rec{Local: 1, Raw: raw})
+				}
+				out = append(out, s)
+			}
+		}
+	}
+	return out
+}
+
 func checkMulti(rec *hx.Recorder, c *multiCase, labels map[string]int) (string, string, bool) {
 	for i, s := range c.Streams {
 		d, p := decodeTracked(s, c.FileTypes[i])
@@ -379,6 +460,30 @@ func TestC18(t *testing.T) {
 			}
 			rec.Eval("fresh-process", int64(nfp))
 			rec.NonTrivialEnum(int64(nfp))
+
+			// presence patterns: every message with components in every file
+			// type that holds it, with all its sources on the wire and its
+			// destinations (a) absent, (b) all present with valid values,
+			// (c) present except one; both byte orders. The component rule
+			// is about what the sources are, not about what else the
+			// message carries.
+			np := int64(0)
+			for _, ft := range compFileTypes() {
+				for _, sl := range prof.Slots(ft) {
+					if !fitmodel.ExpandsComponents(sl.Msg) {
+						continue
+					}
+					for _, s := range presenceStreams(ft, sl.Msg) {
+						np++
+						c := &multiCase{FileTypes: []int{int(ft)}, Streams: []*fitmodel.Stream{s}}
+						if sig, msg, ok := checkMulti(rec, c, map[string]int{}); !ok {
+							rec.Fail("presence", sig, msg, c)
+						}
+					}
+				}
+			}
+			rec.Eval("presence", np)
+			rec.NonTrivialEnum(np)
 
 		}
 
